@@ -22,6 +22,7 @@ import contextlib
 import dataclasses
 import graphlib
 import inspect
+import sys
 import typing
 
 from typelib import constants
@@ -158,7 +159,9 @@ def get_type_graph(t: type) -> graphlib.TopologicalSorter[TypeNode]:
                     or hasattr(child, "__supertype__")
                     or inspection.istypealiastype(child)
                 )
-                if not is_named:
+                # ... and only if the name leads back to them: a type defined within a
+                #   function is not an attribute of its module.
+                if not is_named or not _isreachable(child):
                     node = TypeNode(child, unwrapped, var=var, cyclic=True)
                 else:
                     refname = inspection.qualname(child)
@@ -188,6 +191,13 @@ def get_type_graph(t: type) -> graphlib.TopologicalSorter[TypeNode]:
         graph.add(parent, *predecessors)
 
     return graph
+
+
+def _isreachable(t: typing.Any) -> bool:
+    found: typing.Any = sys.modules.get(getattr(t, "__module__", None) or "")
+    for name in inspection.qualname(t).split("."):
+        found = getattr(found, name, None)
+    return found is t
 
 
 @classes.slotted(dict=False, weakref=True)
